@@ -1,6 +1,6 @@
 """C01: Linux shell commands get exactly the given args; output and status are exact — real Bash
 and Ash drivers against real bash and dash on a pty, every read re-fragmented."""
-import hashlib
+import hashlib, shlex
 import changen as g
 import shellimpl
 from wire import hx, lst
@@ -28,6 +28,9 @@ CTRL = [bytes([c]) for c in list(range(1, 0x20)) + [0x7F] if c not in (13,)]
 META = [b" ", b"'", b'"', b"\\", b"$x", b"${HOME}", b"`id`", b"$(id)", b"!", b"!!", b"*", b"?", b"[a]", b"~", b"#", b";",
         b"&", b"|", b"<", b">", b"(", b")", b"{a,b}", b"\n", b"\t", b"=", b"%s", b"-n", b"--", b"\\n", b"\\c"]
 UTF = ["é".encode(), "✓".encode(), "😀".encode(), "ä ö".encode()]
+
+
+LINE_BUDGET = 4095 - 300
 
 
 def gen_arg(rng):
@@ -89,6 +92,10 @@ def gen_case(rng, params):
     cmds = []
     for _ in range(rng.randint(1, 5)):
         args = [gen_arg(rng) for _ in range(rng.choice([0, 1, 1, 2, 3, 6]))]
+        # domain: the command line fits into one line of a canonical-mode tty (4095 bytes; the kernel discards the
+        # rest, after which the shell waits for a closing quote for ever) — 300 bytes are left for the helper's path
+        while sum(len(shlex.quote(a.decode("utf-8", "surrogateescape"))) + 1 for a in args) > LINE_BUDGET:
+            args.remove(max(args, key=len))
         op = rng.choice(["x", "x", "x0", "t"])
         cmds.append("/".join([op, "P", lst(hx(a) for a in args), hx(gen_out(rng, prompt)), str(rng.choice([0, 0, 1, 2, 127, 255, rng.randint(0, 255)]))]))
     return " ".join([kind, str(chunk)] + cmds)
